@@ -214,7 +214,7 @@ fn run_mapping_ops(mapping: &[u8], ops: &[&str], out: &mut Vec<String>) {
 }
 
 fn run_op(ctx: &Ctx, line: &str) -> String {
-    let toks: Vec<&str> = line.split(' ').collect();
+    let toks: Vec<&str> = line.split(' ').filter(|t| !t.starts_with('=')).collect();
     let pm = ProguardMapping::new(ctx.mapping);
     let with_mapper = |f: &dyn Fn(&ProguardMapper) -> String, m: &Option<ProguardMapper>| -> String {
         match m {
@@ -376,7 +376,7 @@ fn run_x_ops(buf: &[u8], ops: &[&str], out: &mut Vec<String>) {
 }
 
 fn run_free_op(line: &str) -> String {
-    let toks: Vec<&str> = line.split(' ').collect();
+    let toks: Vec<&str> = line.split(' ').filter(|t| !t.starts_with('=')).collect();
     match toks[0] {
         "R" => {
             let b = unhex(toks[1]);
@@ -416,7 +416,7 @@ pub fn run_cases(input: &str) -> Vec<String> {
     while i < lines.len() {
         let l = lines[i];
         if let Some(h) = l.strip_prefix("M ") {
-            cur = unhex(h);
+            cur = unhex(h.split(' ').next().unwrap_or("x"));
             out.push("M".to_string());
             i += 1;
         } else if is_group_op(l) {
@@ -427,7 +427,7 @@ pub fn run_cases(input: &str) -> Vec<String> {
             run_mapping_ops(&cur, &lines[i..j], &mut out);
             i = j;
         } else if let Some(h) = l.strip_prefix("X ") {
-            let buf = unhex(h);
+            let buf = unhex(h.split(' ').next().unwrap_or("x"));
             let mut j = i + 1;
             while j < lines.len() && is_x_op(lines[j]) {
                 j += 1;
